@@ -299,6 +299,11 @@ func runC05(c *Ctx) {
 				continue
 			}
 			bt := p.NamedType("github.com/openkruise/rollouts/pkg/util/patch", bg.builder)
+			// Finalize and the same-package helpers it is split into
+			var finCalls []ssa.CallInstruction
+			for _, ff := range samePkgClosure(p, fin) {
+				finCalls = append(finCalls, AllCalls(ff)...)
+			}
 			for _, f := range fields {
 				hasMethod := false
 				if bt != nil {
@@ -310,7 +315,7 @@ func runC05(c *Ctx) {
 					}
 				}
 				restored := false
-				for _, call := range AllCalls(fin) {
+				for _, call := range finCalls {
 					if !strings.HasSuffix(CalleeName(call.Common()), bg.builder+".Update"+f) || len(call.Common().Args) < 2 {
 						continue
 					}
@@ -318,6 +323,10 @@ func runC05(c *Ctx) {
 					if t.Any(func(x *Term) bool {
 						return x.Op == "field" && x.Name == f && x.Any(MCall("control.GetOriginalSetting"))
 					}) {
+						restored = true
+					}
+					// the saved setting may be handed to a patch-building helper as a parameter
+					if t.Any(func(x *Term) bool { return x.Op == "field" && x.Name == f }) && derivesFromCallUp(p, call.Common().Args[1], "control.GetOriginalSetting", 0) {
 						restored = true
 					}
 				}
@@ -332,7 +341,7 @@ func runC05(c *Ctx) {
 			}
 			// nothing restored that is not a saved field: every Update* argument in the restore patch
 			// that reads the setting reads a field of the saved struct (type-checked), so only count
-			for _, call := range AllCalls(fin) {
+			for _, call := range finCalls {
 				cn := CalleeName(call.Common())
 				if !strings.Contains(cn, bg.builder+".Update") || len(call.Common().Args) < 2 {
 					continue
@@ -342,7 +351,7 @@ func runC05(c *Ctx) {
 					continue
 				}
 				t := TermOf(call.Common().Args[1])
-				fromSaved := t.Any(MCall("control.GetOriginalSetting"))
+				fromSaved := t.Any(MCall("control.GetOriginalSetting")) || derivesFromCallUp(p, call.Common().Args[1], "control.GetOriginalSetting", 0)
 				c.Ob("R5.1c", bg.name+"#restore-source("+m+")", call.Pos(), fromSaved, "Finalize sets "+m+" from the saved original", ifs(!fromSaved, "Finalize writes "+m+" = "+t.String()+", which is not the saved original"))
 			}
 		}
@@ -630,4 +639,42 @@ func mustPassOnSuccess(c *Ctx, rule, construct string, fn *ssa.Function, must fu
 		c.Ob(rule, construct+"#success-return", ret.Pos(), !reach, what, ifs(reach, "this `"+succ+"` is reachable without the required step having run")).WithFacts(fs)
 	}
 	return n
+}
+
+// derivesFromCallUp: v depends on the result of a call matching pat, in its own function or — when
+// it depends on a parameter — at every call site of that function (two levels up).
+func derivesFromCallUp(p *Program, v ssa.Value, pat string, depth int) bool {
+	if SliceHas(v, MCall(pat)) {
+		return true
+	}
+	if depth >= 2 {
+		return false
+	}
+	for x := range BackwardSlice(v) {
+		par, ok := x.(*ssa.Parameter)
+		if !ok {
+			continue
+		}
+		f := par.Parent()
+		idx := -1
+		for i, q := range f.Params {
+			if q == par {
+				idx = i
+			}
+		}
+		cs := p.Callers(f)
+		if idx < 0 || len(cs) == 0 {
+			continue
+		}
+		all := true
+		for _, site := range cs {
+			if site.Kind == "closure" || idx >= len(site.Args) || !derivesFromCallUp(p, site.Args[idx], pat, depth+1) {
+				all = false
+			}
+		}
+		if all {
+			return true
+		}
+	}
+	return false
 }
